@@ -45,6 +45,8 @@ def check(run):
     from . import C17 as _C17
     with R.as_rule('C07.gate'):
         _C17.session(R)          # the _ready gate starts closed: every connect() runs on a newly built session
+    from . import C11 as _C11
+    _C11.no_self_deadlock(R, 'C07.timeout')      # a failing write cannot block the loop thread on its own lock
     from . import C15 as _C15, C18 as _C18
     with R.as_rule('C07.timeout'):
         _C15.units(R)            # the loop wakes up every `poll` seconds (a number): the timeouts are looked at
